@@ -1,32 +1,33 @@
 # orchestrator configuration of the C04 check (loaded by tools/props.py)
-from stack import FULL_STACK, FULL_DEPS, QUIC_STACK, QUIC_DEPS
+from stack import FULL_STACK, FULL_DEPS, QUIC_STACK, QUIC_DEPS, WT_STACK, WT_DEPS
 
 SPEC = dict(
     pkg="./harness/c04",
-    instrument=FULL_STACK + QUIC_STACK,
-    deps=FULL_DEPS + QUIC_DEPS,
+    instrument=FULL_STACK + QUIC_STACK + WT_STACK,
+    deps=FULL_DEPS + QUIC_DEPS + WT_DEPS,
     level="fault_enumeration",
     level_text=("one fault per run placed at a drawn position of a real dial + accept + stream open + echo between two real "
                 "nodes: I/O fault kinds x endpoint x call index, gater hook, resource-manager call site x n, context cancel "
                 "and Close() at an I/O index; afterwards resource-manager readings of both REAL managers, Close on both raw "
                 "endpoints and the goroutine set are audited. Positions are sampled in quick, swept in thorough. "
                 "QUIC strata (half of the runs): the same attempt over the real QUIC transport (quicreuse + quic-go, instrumented) on a "
-                "simulated UDP wire — QUIC only, or QUIC and TCP addresses raced by the dial ranker; planned fault = datagram blackout "
+                "simulated UDP wire — QUIC only, QUIC and TCP addresses raced by the dial ranker, or WebTransport only (webtransport-go + http3, instrumented); planned fault = datagram blackout "
                 "(direction x k-th datagram x span), gater hook, resource-manager site x n, cancel or Close() at the k-th datagram; "
                 "random loss / duplication / reordering on top; reuseport on or off on the dialling node; audited in addition: "
                 "no one-sided connection 3 minutes after the attempt, no UDP socket but the listening ones, none after Host.Close."),
     level_note=("trusted: testing/synctest, simnet's TCP model (writes never block, EPIPE after peer close), the audit at "
-                "quiescence after 6 virtual minutes; not simulated: OS sockets, tcpreuse, websocket/WebTransport/WebRTC "
+                "quiescence after 6 virtual minutes; not simulated: OS sockets, tcpreuse, websocket/WebRTC "
                 "transports and their listeners; in QUIC strata TLS 1.3 uses the X25519 key share (GODEBUG tlsmlkem=0, see simrand)"),
     technique="deterministic simulation with fault injection: fault position sweep over real upgrader/swarm/host stack on simnet",
     design_ref="DESIGN.md section 6 (C04)",
     quick_s=60, thorough_s=900,
-    rule=("stratum TCP | QUIC | QUIC+TCP drawn first; QUIC strata: plan, background UDP faults none|light|heavy, reuseport on|off, payload; TCP: "
+    rule=("stratum TCP | QUIC | QUIC+TCP | WebTransport drawn first; QUIC strata: plan, background UDP faults none|light|heavy, reuseport on|off, payload; TCP: "
           "one run = one tape: security noise|tls, PSK on/off, link chunking whole|fragmented, payload 64|2000|70000 B and one "
           "fault plan; non-trivial = the planned fault actually fired; distinct = distinct (configuration, fault plan, attempt "
           "outcome)"),
     probes=["outcome-connect-failed", "outcome-stream-failed", "outcome-echo-failed", "outcome-ok",
-            "quic-outcome-connect-failed", "quic-outcome-stream-failed", "quic-outcome-echo-failed", "quic-outcome-ok"],
+            "quic-outcome-connect-failed", "quic-outcome-stream-failed", "quic-outcome-echo-failed", "quic-outcome-ok",
+            "webtransport-outcome-connect-failed", "webtransport-outcome-stream-failed", "webtransport-outcome-echo-failed", "webtransport-outcome-ok"],
     real=["ALL of the following run as tasks of the seeded scheduler (instrumented: every lock, channel operation, select, go statement is a scheduling point)", "basic host, identify", "swarm (dial, listen, conns, streams)", "tcp transport dial path (WithDialerForAddr)",
           "upgrader + listener (gated accept, accept timeout, Upgrade)", "noise, tls, pnet (PSK)", "multistream-select", "yamux",
           "QUIC strata: p2p/transport/quic, quicreuse, quic-go v0.59 (all instrumented), crypto/tls QUIC handshake (stdlib goroutine, hands over strictly)",
